@@ -199,7 +199,7 @@ def run_format_tie(ctx, tied, budget):
     if not cases:
         return
     bad, log = vlib.coq_bad_idx("c15_fmt", "DialectMerge C15Model C15Proofs C15Format", "From VerifGen Require Import K2 K13.",
-                                "\n".join(defs), cases, OK_FUN, CASE_TYPE, shard=300,
+                                "\n".join(defs), cases, OK_FUN, CASE_TYPE, shard=300, timeout=1800,
                                 needs=["gen/K13C.vo", "theories/C15Format.vo"])
     name = "format-model-vs-impl (mixin/codec/one-shot x msgpack/orjson/json/yaml/toml, K2 merge)"
     if bad is None:
@@ -211,6 +211,6 @@ def run_format_tie(ctx, tied, budget):
         if bad:
             ctx.not_shown("correspondence " + name, detail)
     sens, _ = vlib.coq_bad_idx("c15_fmt_sens", "DialectMerge C15Model C15Proofs C15Format", "From VerifGen Require Import K2 K13.",
-                               "\n".join(defs), cases, SENSITIVE_FUN, CASE_TYPE, shard=300, needs=["theories/C15Format.vo"])
+                               "\n".join(defs), cases, SENSITIVE_FUN, CASE_TYPE, shard=300, timeout=1800, needs=["theories/C15Format.vo"])
     ctx.hist("format_tie", "outside-domain:union+built-in date strategy or no_copy_collections (K13C)", len(sens or []))
     ctx.count(n=len(cases))
